@@ -44,7 +44,7 @@ CHECKS = {
  "C16": dict(engine="shapegen", technique="runtime monitoring of generated programs (real functions log arguments, addresses and nested results) plus Spec-M histories (dynmock)",
    text="Generated traits with 1-4 methods and unmock_with lists mixing path / path(params..) / _ and entries for skipped associated functions; every method is unmocked via an empty partial mock and via applies_unmocked(); exactly one invocation of the right function with the caller's arguments, result unchanged, calls back into the mock counted there, `_` panics naming the method.", ref="5 C16", note=B_NOTE),
  "C17": dict(engine="shapegen", technique="runtime monitoring of generated programs: Debug rendering and leaf addresses of every returned value compared with the generator's rendering of the configured value, over a calibrated set of accepted return types",
-   text="273 accepted return types over Option/Result/Vec/Poll/1-4-tuples x owned and borrowed leaves (depth <= 3); every variant, 0-4 elements, distinct leaves; four configuration paths. Returned structure must equal the configured one, borrowed leaves keep their addresses over repeated calls, a further request is refused exactly when an owned leaf was configured through a single-use path. The forced cases are judged a second time in the no_std + spin-lock build.", ref="5 C17", note=B_NOTE + " Accepted types calibrated once: gen/accepted/returns.json."),
+   text="273 accepted return types over Option/Result/Vec/Poll/1-4-tuples x owned and borrowed leaves (depth <= 3); every variant, 0-4 elements, distinct leaves; four configuration paths. Returned structure must equal the configured one, borrowed leaves keep their addresses over repeated calls, a further request is refused exactly when an owned leaf was configured through a single-use path. The forced cases are judged a second time in the no_std + spin-lock build. Values with empty string / byte-slice leaves are forced.", ref="5 C17", note=B_NOTE + " Accepted types calibrated once: gen/accepted/returns.json."),
  "C18": dict(engine="dynmock", technique="runtime monitoring: metamorphic testing (run-against-run comparison of the real code, no model)",
    text="Four relations between runs of the real code: clause permutation, routing over clones/threads (optionally with derived mocks parked in instances' own value chains), a second independent mock with interleaved foreign calls, swapped generic instantiations. Any difference in a call outcome or the verification line multiset is a violation.", ref="5 C18", note="No specification involved; trusted: the transformation code in meta.rs. std build only (the documented no_std difference makes routing over clones observable there)."),
  "C19": dict(engine="shapegen", technique="runtime monitoring of generated programs and Spec-M histories: panic texts parsed and compared with rustc's own Debug renderings computed at the call site, captured file:line and the generator's per-argument evaluation",
